@@ -27,7 +27,7 @@ COMPONENTS = {"real": ["smpl_extract (actions, roland/s7xx/*, util/*, structural
 ASSUMPTIONS = ["exact arm: names are safe words, unique per directory, no L/R pairs, and no sample is reached through two patches of one performance (the statement does not fix whether it then appears once or twice)",
                "loop points satisfy start <= selected end < number of words"]
 EXPECTED_PROBES = ["chain_permuted", "cluster_top", "reverse_mode", "exact_fill", "orphan_volume", "no_volume", "fat_v2",
-                   "shared_sample", "release_end_mode", "knob_not_default", "cli_crosscheck"]
+                   "shared_sample", "shared_chain", "release_end_mode", "knob_not_default", "cli_crosscheck"]
 SHRINK = {"max_attempts": 120, "max_seconds": 90.0, "simple_values": {"policy": ["contiguous"], "block": [4096], "cluster_top": [0]}}
 KNOBS = [2, 64, 510, 4096, 4096, 4096, 8192, 65536]
 CLI_EVERY = 40
@@ -61,6 +61,9 @@ def run(sc: dict) -> RunResult:
         sm = model["samples"][sl.idx]
         if sl.idx not in exported_idx:
             continue
+        if "alias_of" in sm:
+            res.probes["shared_chain"] += 1
+            nontrivial = True
         if len(sl.data_chain) > 1 and sl.data_chain != sorted(sl.data_chain):
             res.probes["chain_permuted"] += 1
             nontrivial = True
